@@ -205,12 +205,13 @@ def missing(_):
         from taskchain import Config
         fs = keylib.fresh_fs()
         base = fs.path('/data')
-        which = ctx.choice('which', 4)
+        which = ctx.choice('which', 5)
         cl = family.make_pipeline(TSPEC)
         v = ctx.sym_int('v')
         s = ctx.sym_str('s')
         info = {'case': ['value only in a sibling config', 'value only in a context entry for another namespace',
-                         'string where dtype=int is declared', 'value only in the parent config'][which]}
+                         'string where dtype=int is declared', 'value only in the parent config',
+                         'default of the wrong type in effect'][which]}
         try:
             if which == 0:
                 other = Config(base, name='o', namespace='o', data={'p': v, 'n_conf': 1, 'tasks': []})
@@ -221,6 +222,9 @@ def missing(_):
                 keylib.chain(Config(base, name='main', data={'uses': [mine]}, context={'for_namespaces': {'zz': {'p': v}}}))
             elif which == 2:
                 keylib.chain(Config(base, name='m', data={'tasks': [cl['Work']], 'p': v, 't': s}))
+            elif which == 4:
+                bad = family.make_pipeline([P('Work', params=[par('p'), par('shape', dtype=list, default=(64, 64))])])
+                keylib.chain(Config(base, name='m', data={'tasks': [bad['Work']], 'p': v}))
             else:
                 mine = Config(base, name='m', namespace='m', data={'tasks': [cl['Work']]})
                 keylib.chain(Config(base, name='main', data={'uses': [mine], 'p': v}))
